@@ -13,7 +13,7 @@
 (* invariant NoBad says: no behaviour of the specification, under any      *)
 (* environment within the bounds, contradicts any property statement.      *)
 (***************************************************************************)
-EXTENDS CatMon
+EXTENDS CatMon, Json
 
 CONSTANTS Tables,      \* set of descriptors (cfg records) to start from
           Bytes,       \* input alphabet (byte chosen at the read)
@@ -34,7 +34,8 @@ CONSTANTS Tables,      \* set of descriptors (cfg records) to start from
           MaxToggle,
           Edits,       \* BOOLEAN: read/test handlers may rewrite the response buffer
           Prefix,      \* input bytes delivered first (fixed), before the free choice starts
-          MaxHavoc     \* budget of HavocScratch steps (C20)
+          MaxHavoc,    \* budget of HavocScratch steps (C20)
+          KeepRec      \* BOOLEAN: keep the last record in mon.last (simulation export only; FALSE for model checking)
 
 VARIABLES S, mem, cfg, mon, nbytes, nlines, ntrig, nhx, nfail, ntog, lastRet, nhav
 
@@ -91,6 +92,7 @@ MemDiff(m0, m1) ==
   IN ToSeq(cs)
 
 Clean(m) == [m EXCEPT !.n = 0, !.txns = 0, !.units = 0, !.evs = 0, !.uncl = IF @ > 0 THEN 1 ELSE 0, !.ulog = <<>>]
+Feed(m, rec) == IF KeepRec THEN [Clean(MonRecord(m, rec)) EXCEPT !.last = rec] ELSE Clean(MonRecord(m, rec))
 Fails(obs) == Cardinality({i \in 1..Len(obs) : obs[i].k \in {"lock", "unlock"} /\ obs[i].r # 0})
 Count(obs, k, p(_)) == Cardinality({i \in 1..Len(obs) : obs[i].k = k /\ p(obs[i])})
 
@@ -100,7 +102,7 @@ SvcAct ==
         base == [e |-> "api", f |-> "svc", a |-> <<>>, ev |-> r.obs \o MemDiff(mem, r.mem), ret |-> r.ret]
         rec == IF cfg.mutex THEN [e |-> "api", f |-> "svc", a |-> <<>>, ev |-> base.ev, ret |-> r.ret, mx |-> [sau |-> TRUE, unch |-> TRUE]] ELSE base
     IN /\ S' = r.s /\ mem' = r.mem /\ cfg' = r.cfg
-       /\ mon' = Clean(MonRecord(mon, rec))
+       /\ mon' = Feed(mon, rec)
        /\ nbytes' = nbytes + Count(r.obs, "rd", LAMBDA e : e.b # -1)
        /\ nlines' = nlines + Count(r.obs, "rd", LAMBDA e : e.b = LF)
        /\ nfail' = nfail + Fails(r.obs)
@@ -117,7 +119,7 @@ ApiAct(f, a) ==
         base == [e |-> "api", f |-> f, a |-> a, ev |-> r.obs, ret |-> r.ret]
         rec == IF cfg.mutex THEN [e |-> "api", f |-> f, a |-> a, ev |-> r.obs, ret |-> r.ret, mx |-> [sau |-> TRUE, unch |-> (r.s = S)]] ELSE base
     IN /\ S' = r.s
-       /\ mon' = Clean(MonRecord(mon, rec))
+       /\ mon' = Feed(mon, rec)
        /\ nfail' = nfail + Fails(r.obs)
        /\ lastRet' = IF f \in {"trigger", "hold_exit"} THEN S_BUSY ELSE lastRet
        /\ UNCHANGED <<mem, cfg, nbytes, nlines, nhav>>
@@ -139,7 +141,7 @@ ToggleAct ==
        LET cur == IF tg.t = "group" THEN cfg.groups[tg.i + 1].disable ELSE IF tg.fl = "disable" THEN cfg.cmds[tg.i + 1].disable ELSE cfg.cmds[tg.i + 1].only_test
            rec == [e |-> "env", f |-> "flag", t |-> tg.t, i |-> tg.i, fl |-> tg.fl, val |-> ~cur]
        IN /\ cfg' = SetFlag(cfg, rec)
-          /\ mon' = Clean(MonRecord(mon, rec))
+          /\ mon' = Feed(mon, rec)
   /\ ntog' = ntog + 1
   /\ UNCHANGED <<S, mem, nbytes, nlines, ntrig, nhx, nfail, lastRet, nhav>>
 
@@ -157,6 +159,9 @@ HavocAct ==
 Next == SvcAct \/ TrigAct \/ HxAct \/ QueryAct \/ ToggleAct \/ HavocAct
 
 Spec == Init /\ [][Next]_vars
+
+\* simulation export (tlc -simulate, -workers 1): TLC evaluates this for every candidate successor of the current state, so the *current* state's record is printed (repeatedly, de-duplicated by the reader); level 1 starts a new behaviour
+SimExport == PrintT(<<"SIMREC", TLCGet("level"), ToJson(mon.last), IF TLCGet("level") = 1 THEN ToJson(cfg) ELSE "">>)
 FairSpec == Spec /\ WF_vars(SvcAct)
 
 (***************************************************************************)
